@@ -424,6 +424,28 @@ func ruleC12R1(c *Ctx) {
 		c.bad("C12.R1", rel, "recycle path", rel.Pos(), "no sync.Pool.Put of the record is reachable from Release")
 		return
 	}
+	// the recycle path is the ONLY way into the pool (added after seed c12h): every Put of a record is the one at the end
+	// of the chain, and each function of the chain below Release is called only by the function above it — a second entry
+	// (a "discard" that skips Release) recycles a record with its fields, length and time still set
+	inChain := map[*ssa.Function]int{}
+	for i, stp := range chain {
+		inChain[stp.fn] = i
+	}
+	for _, fn := range c.P.universe {
+		for _, s := range callsIn(fn) {
+			if isRecordPut(s) {
+				c.check(s == chain[len(chain)-1].target, "C12.R1", fn, "a record goes back to the pool only at the end of the recycle path", s.Pos(),
+					"the Put at the end of Release's chain", "a record is put back into the pool outside the recycle path that starts in Release (its fields are not cleared there)")
+			}
+		}
+	}
+	for i := 1; i < len(chain); i++ {
+		g := chain[i].fn
+		for _, s := range c.callSitesOf(func(f *ssa.Function) bool { return f == g }) {
+			c.check(s.Parent() == chain[i-1].fn, "C12.R1", s.Parent(), "the recycle helper "+fnBaseName(g)+" is entered only from the recycle path", s.Pos(),
+				"called by "+fnBaseName(chain[i-1].fn), "the record reaches the pool through "+fnBaseName(g)+" without passing Release: whatever Release clears (fields, length, time) survives into the next record that takes this object")
+		}
+	}
 	recCalls := []ssa.CallInstruction{chain[0].target}
 	// producers: universe functions calling NewRecord
 	var producers []*ssa.Function
